@@ -655,7 +655,10 @@ def run_history(spec, hseed, steps, driver, props, mode="prim", stress=False):
             if ok:
                 fs = from_scratch(b)
                 stats["nontrivial_runs"] += bool(writes)
-                if out is not None:
+                if out is not None and out and not isinstance(rr.value, (list, tuple)):
+                    if p3:
+                        viol.append({"property": p3, "what": f"run returned {rr.value!r} where the values of nodes {out} were requested", "step": desc})
+                elif out is not None:
                     q("cseen-list %s" % " ".join(map(str, out)), "skip", None, "")
                     lines.pop(); expect.pop()
                     for k, o in enumerate(out):
